@@ -107,7 +107,10 @@ def make_probe(ws, jname):
     subprocess.run(["git", "init", "-q", "-b", "main", d], check=True, env=env, stdout=subprocess.DEVNULL)
     subprocess.run(["git", "-C", d, "add", "."], check=True, env=env, stdout=subprocess.DEVNULL)
     subprocess.run(["git", "-C", d, "commit", "-q", "-m", "txns"], check=True, env=env, stdout=subprocess.DEVNULL)
-    os.rename(tmp, probe)
+    try:
+        os.rename(tmp, probe)
+    except OSError:
+        shutil.rmtree(tmp, ignore_errors=True)      # somebody else built it meanwhile
     return probe
 
 
@@ -241,14 +244,33 @@ class Runner:
           reports' bodies) may be empty - every announced path must exist as a regular file, nothing else may appear."""
         self.n += 1
         jname, inp = case["journal"], case["input"]
-        probe = make_probe(self.ws, jname)
+        probe = make_probe(self.ws, jname) if case["what"] != "outdir-prefix" else os.path.join(self.ws, "no-probe")
         cdir = os.path.join(self.ws, "runs", "probe-%d-%d" % (os.getpid(), self.n))
         out_dir = os.path.join(cdir, "out")
         os.makedirs(out_dir)
         try:
             cfg = os.path.join(cdir, "t.toml")
-            with open(cfg, "w") as f:
-                f.write(config_text(probe, "git" if inp == "git" else "fs", case["reports"], case["exports"]))
+            if case["what"] != "outdir-prefix":
+                with open(cfg, "w") as f:
+                    f.write(config_text(probe, "git" if inp == "git" else "fs", case["reports"], case["exports"]))
+            if case["what"] == "outdir-prefix":
+                # filesystem storage whose journal directory is a *sibling* of the output directory with a name that starts
+                # like it (books/out vs books/outgoing): every journal file is input; a fault in one of them fails the run
+                jdir = os.path.join(cdir, "books", "outgoing", "txns")
+                odir = os.path.join(cdir, "books", "out")
+                os.makedirs(jdir)
+                os.makedirs(odir)
+                with open(os.path.join(jdir, "good.txn"), "w") as f:
+                    f.write("2024-01-01 'ok\n e:x  1\n a:cash\n")
+                with open(os.path.join(jdir, "bad.txn"), "w") as f:
+                    f.write(case["bad"])
+                with open(cfg, "w") as f:
+                    f.write(config_text(probe, "fs", case["reports"], case["exports"]).replace(
+                        'fs = { path = "%s"' % os.path.join(probe, "data"), 'fs = { path = "%s"' % os.path.join(cdir, "books", "outgoing")))
+                p = subprocess.run([common.TK_CLI, "--config", cfg, "--output.dir", odir, "--output.prefix", PREFIX],
+                                   stdout=subprocess.PIPE, stderr=subprocess.PIPE, timeout=120, cwd=cdir)
+                return {"r": "OK", "exit": p.returncode, "present": {n: 0 for n in sorted(os.listdir(odir))},
+                        "announced": [], "stderr": p.stderr.decode("utf-8", "replace")[-200:]}
             args = [common.TK_CLI, "--config", cfg]
             if inp == "file":
                 args += ["--input.file", os.path.join(probe, "single.txn")]
@@ -497,6 +519,12 @@ class C14(PropBase):
             for pre in ([], ["conf"], ["txns"], ["conf", "txns"]) + ((["dir"],) if cmd == "new" else ()):
                 out.append({"op": "sub", "kind": "sub:%s:%s" % (cmd, "+".join(pre) or "fresh"), "cmd": cmd, "existing": list(pre)})
         return out
+
+    def outdir_prefix_cases(self):
+        bads = ["2024-01-02 'unbalanced\n e:x  1\n a:cash  -2\n", "2024-01-02 'garbage\n e:x  1\n a:cash\nthis is not a transaction\n",
+                "2024-13-45 'bad date\n e:x  1\n a:cash\n"]
+        return [{"op": "probe", "kind": "probe:outdir-prefix", "what": "outdir-prefix", "journal": "small", "input": "fs",
+                 "reports": ["balance", "register"], "exports": ["identity"], "bad": b} for b in bads]
 
     def gen_probe(self):
         out = []
@@ -762,6 +790,12 @@ class C14(PropBase):
                             "what": "stdout is a pipe without reader (every write fails), reports %s: exit 0" % case["reports"]}
                 if impl.get("extra"):
                     return {"sig": "stray-file", "what": "files created although no output directory was given: %s" % impl["extra"][:5]}
+                return None
+            if case["what"] == "outdir-prefix":
+                if ex == 0 or impl["present"]:
+                    return {"sig": "faulty-file-ignored:outdir-prefix",
+                            "what": "journal directory books/outgoing holds a faulty file, output directory books/out: exit %s, files written %s" % (
+                                ex, sorted(impl["present"]))}
                 return None
             planned = [fname(t) for t in case["reports"] + case["exports"]]
             present = impl["present"]
